@@ -54,6 +54,13 @@ def createSpeculative : Nat → CellId → EM (Except String CellId)
           | .str s => .str s none
           | .num x => .num x
         let objToSet ← (match pv with
+          | .unknown => do
+            -- an unset value becomes an array for a numeric key, an object otherwise
+            let newObj : Val ← (match memberToSet with
+              | .num _ => do let a ← allocArrM #[]; pure (Val.arr a)
+              | _ => do let o ← allocObjM []; pure (Val.obj o) : EM Val)
+            writeCell spec.parent newObj
+            return Except.ok newObj
           | .nil (some _) => do
             -- the parent is itself speculative: create it first (on a copy of its value)
             let pc ← newCell pv
@@ -182,11 +189,15 @@ def binaryOp (op : Tag) (l r : Val) : BinOut :=
     yields a speculative null remembering parent and key, a method a bound copy -/
 def memberStep (pos : Nat) (left right : CellId) : EM CellId := do
   let rv ← readCell right
-  if (← readCell left).kind == .unknown then
-    match rv with
-    | .num _ => let a ← allocArrM #[]; writeCell left (.arr a)
-    | _ => let o ← allocObjM []; writeCell left (.obj o)
   let lv ← readCell left
+  if lv.kind == .unknown then
+    -- nothing is set here yet: no member to find, and reading does not change the value (it
+    -- becomes an array or an object only if the member is assigned to, `createSpeculative`)
+    let key : Key := match rv with
+      | .num x => .num x
+      | _ => .str rv.str!
+    newCell (.nil (some ⟨left, key⟩))
+  else
   let h ← getHeap
   match getMember h lv rv with
   | .error m => throwRt pos m
